@@ -58,6 +58,9 @@ CHECKS = {
     "C15": ("Coq proof at R: scan loop invariant (prefix maximum, minimum since, best pair so far) + bit-exact correspondence",
             "c15_scan, c15_bounds, c15_monotone, c15_calculate (value is the minimum over i <= j; reported dates realise it, start <= end).",
             TB + R_AX, "3/C15"),
+    "C16": ("Coq proof: composition model (strategy + broker + eager client + Uist server + exchange): run() performs exactly N updates by the server clock lemma; ncf ledger and 'no value from trading' invariant at R + step-wise correspondence and direct reading of whole run() calls",
+            "c16_run_walks_dataset, c16_update_is_one_tick, c16_run_fuel_irrelevant (termination after exactly N updates, snapshot dates = clock after each tick), c16_cash_flow over all histories, c16_trading_creates_no_value + c16_fills_at_constant_price (constant zero-spread prices: snapshot value = cash deposited). init / update / withdrawals are compared step by step with the model; whole run() calls are judged by the direct reading (history length, dates, values, ncf).",
+            TB + R_AX + "PARTIAL: 'every snapshot equals the cash deposited' is the composition of three proved facts (worth invariant per update, fills at constant price, total value = worth), not one end-to-end theorem; intermediate hash orders inside one run() call are not observable, so run() is not model-checked step by step.", "3/C16"),
     "C17": ("Coq proof for every admissible sort result and every batch size (skeleton, every decision function) + the sort specification checked on every admission of every trace",
             SK + "c17_admission, c17_sells_get_smaller_ids, c17_ids_grow_with_admission, c17_fills_in_book_order, c17_book_sorted_always hold for every permutation of the buffer that puts sells first. slice::sort_by with this non-total comparator is specified (sells_first + permutation), not modelled: the boolean check is evaluated inside Coq on every observed admission (batch sizes 0..65 in all arrangement classes quick; up to 4097 thorough).",
             TB + "PARTIAL: the behaviour of std's sort_by on a comparator that is not a total order is validated by test per run, not proved.", "3/C17"),
@@ -67,6 +70,9 @@ CHECKS = {
     "C19": ("Coq proof: unbounded date-only lemma + complete vm_compute sweep of 84 006 days lifted by forallb_forall; exhaustive model/code comparison",
             "c19_date_only for every timestamp; c19_spec (bound 1970–2199 stated in the theorem) by a kernel-evaluated complete sweep against an independently written calendar spec; c19_calendar ties Hinnant's formula to the day-by-day Gregorian calendar. Every run compares the model with the time crate and schedule/mod.rs on every day of the range at several times of day.",
             "Trusted: Coq kernel + vm_compute; the time crate's calendar is compared exhaustively on the range, not modelled beyond it.", "3/C19"),
+    "C20": ("Coq proof: JSON-tree round trips for every message type of both services + handler layer faithful over all request sequences; three-way correspondence (in-process / actix with real JSON / model)",
+            "c20_transport_faithful (decoded response stream = in-process result stream, every request sequence), c20_status_400_iff_none, c20_rt_* (17 message types). Every run executes each scenario in-process and through actix_web::test with real JSON bodies and compares them (structure exact, floats 1e-12, 400 exactly at None), compares the HTTP run step by step with the server model, and compares every JSON body as a tree with the model's encoders/decoders.",
+            TB + "PARTIAL BY NATURE: serde_json's text layer, actix routing/extractors and the mutex are exercised, not modelled; the transport theorem is stated for the Uist service's typed results and, for Jura, at the level of the wire types (strings for px/sz).", "3/C20"),
 }
 
 NOT_YET = {}
